@@ -350,12 +350,19 @@ class Gen:
             p["m"] = m if i % 3 != 2 else 1 - m
             ops.append({"op": "insert", "p": p, "m": NONE, "compact": 0})
             t += r.choice([0, 1])
+        first = json.loads(json.dumps(ops[0]["p"]))
         for _ in range(r.choice([1, 2])):
             kind = r.choice(["search", "search", "count", "get", "select", "contains", "get_timestamps", "get_tag_values", "get_field_keys", "len", "all"])
             a = {"op": kind, "m": m, "via": "handle", "sticky": 1}
+            matching = r.random() < 0.5
             if kind in ("search", "count", "get", "select", "contains"):
-                a["q"] = self.atom()
-                self.adapt(a, 0.8)
+                if matching:      # a query the first point satisfies - and so will the copies of it inserted below
+                    a["q"] = {"k": "meas", "key": 0, "key2": 0, "mf": 0, "op": "eq", "v": first["m"], "tf": 0}
+                    if first["tg"][0] >= 0 and r.random() < 0.5:
+                        a["q"] = {"k": "tag", "key": 1, "key2": 0, "mf": 0, "op": "eq", "v": first["tg"][0], "tf": 0}
+                else:
+                    a["q"] = self.atom()
+                    self.adapt(a, 0.8)
             if kind in ("search", "all"):
                 a["sorted"] = r.randrange(2)
             if kind == "select":
@@ -372,14 +379,17 @@ class Gen:
                 if w == "insert":
                     p = self.point(t)
                     p["m"] = m
+                    if matching:
+                        p = dict(json.loads(json.dumps(first)), t=t)        # in time order, and selected by the query just read
                     ops.append({"op": "insert", "p": p, "m": NONE, "compact": 0})
                 elif w == "insert_multiple":
-                    ps = [self.point(t), self.point(t)]
+                    ps = [self.point(t), dict(json.loads(json.dumps(first)), t=t) if matching else self.point(t)]
                     ops.append({"op": "insert_multiple", "ps": ps, "m": m, "bad": 0})
                 elif w == "remove":
-                    ops.append(self.adapt({"op": "remove", "q": self.atom(), "m": r.choice([m, NONE])}, 0.8))
+                    ops.append(self.adapt({"op": "remove", "q": self.atom(), "m": r.choice([m, NONE]), "q_from_read": 1 if matching else r.randrange(2)}, 0.8))
                 elif w == "update":
-                    ops.append(self.adapt({"op": "update", "q": self.atom(), "m": r.choice([m, NONE]), "u": self.update(), "fail": 0}, 0.8))
+                    ops.append(self.adapt({"op": "update", "q": self.atom(), "m": r.choice([m, NONE]), "u": self.update(), "fail": 0,
+                                           "q_from_read": 1 if matching else r.randrange(2)}, 0.8))
                 elif w == "drop":
                     ops.append({"op": "drop_measurement", "m": m})
                 else:
